@@ -116,8 +116,7 @@ def build_case(rng, views, dialect, n_events, n_faults, dirty):
             if f is not None:
                 # the same faulty packet 1..3 times in a row (a repeated fault must fail each time, with no carry-over)
                 for _ in range(rng.choice([1, 1, 2, 3]) if kind.startswith('unknown') else 1):
-                    h.time += 1
-                    h.packets.append((f[0], f[1], {'kind': 'fault', 'fault': kind, 'time': h.time}))
+                    h.packets.append((f[0], f[1], {'kind': 'fault', 'fault': kind, 'time': h.clock()}))
                     faults.append(len(h.packets) - 1)
             continue
         k = rng.choices(kinds, [w[x] for x in kinds])[0]
